@@ -1,10 +1,13 @@
 prop("C08", pkg="c08",
      rule="Each rapid case is either (90%) a target: a tgen struct type, a value, a protocol (binary strict / non-strict / compact), 1-3 random content trees used as "
-          "undeclared fields (every thrift type, nesting <= 3, ids outside every declared id incl. ids <= 0 and around 64/128), 0-3 random byte strings, 0-6 byte "
+          "undeclared fields (every thrift type, nesting <= 3; ids: any int16 no struct of the type declares - 0 (11 %), negative, next to a declared id (+-1, +-2; 22 %), "
+          "around the 64/128 bitmap words, arbitrary), 0-3 random byte strings, 0-6 byte "
           "flips and 1-3 trailing bytes - from which the probes are derived deterministically: the valid encoding (rendered through the package's own Writer), "
           "EVERY proper prefix through Unmarshal (and every third through a Decoder over bytes.Reader / bytes.Buffer / bufio / plain / one-byte readers), every "
           "list/set/map/string header with its count replaced by -1, -2^31, n-1, n+1, 2^24, 2^31-1, 2^31, 2^35, 2^63, every field header with 2 other type codes "
-          "and 3 other ids, the flipped and random inputs, the unknown fields inserted at every field boundary of every struct node (<= 80 per case), the trailing "
+          "and 3 other ids, the flipped and random inputs, the unknown fields inserted at every field boundary of every struct node, top level and nested (<= 80 per case), "
+          "and on EACH of these encodings the truncation family again (cut exactly before the inserted field, <= 32 cuts inside it, the cut exactly after it, the cut that "
+          "drops only the final STOP - through Unmarshal and a Decoder - and every proper prefix for each sixth insertion: plain io.EOF only for the empty input), the trailing "
           "bytes, every required field removed in turn, and every field (and non-empty container element type) replaced by another wire type under strict mode; "
           "or (10%) 1-12 random Reader method calls on random bytes. All library calls run in a supervised worker process under RLIMIT_AS (16 GiB from the driver, "
           "4 GiB self-imposed in the worker); allocation is the runtime.MemStats.TotalAlloc delta, measured per probe group and per call when a group exceeds 64 MiB. "
@@ -18,7 +21,7 @@ prop("C08", pkg="c08",
      vlimit_gb=16,
      technique="property-based testing (rapid) + exhaustive prefix/header-mutation enumeration per generated encoding, validity and metamorphic oracles, "
                "out-of-process supervision with address-space limit and stall watchdog",
-     level_text="Exploration: ~11 M decode calls per quick run (~87 M thorough): no panic or fatal fault; every proper prefix of a valid encoding gives errors.Is(err, io.ErrUnexpectedEOF) "
+     level_text="Exploration: ~17 M decode calls per quick run (~135 M thorough): no panic or fatal fault; every proper prefix of a valid encoding gives errors.Is(err, io.ErrUnexpectedEOF) "
                 "(io.EOF for empty input); negative / oversized counts give an error; TotalAlloc delta <= 64 MiB for inputs <= 4 KiB; undeclared fields of any type and "
                 "nesting leave the decoded value unchanged; trailing bytes, missing required fields (*MissingField) and strict-mode wire type changes (*TypeMismatch) are "
                 "reported, the latter two with errors.As and, for MissingField, the id of the missing field. A call on a <= 4 KiB input that has not returned after 20 s "
